@@ -7,11 +7,16 @@ the very same commit; an unchanged refresh creates no commit.  Tie: history-leve
 testing (the canonical snapshot compares the author / date / message identity of every patch
 commit with the model's), plus an end-to-end direct oracle on commits written with legacy
 encodings, odd identities and notes, pushed / floated / sunk / renamed / committed /
-uncommitted / undone.  Partial: encoding_rs tables and git's own i18n re-encoding are oracles;
-gpg signing is outside the model."""
+uncommitted / undone.  The text side - what re-creating a commit does to the message bytes and
+the encoding header - is Model/Encoding.v (message_ex, encode_with, commit_with_options), with
+theorems on the shown text and a correspondence that re-creates generated commits with the real
+stg under each i18n.commitEncoding and compares header, bytes and git's decoding with the model.
+Partial: encodings other than utf-8 / latin-1 / windows-1252 and gpg signing are outside the
+model."""
 
 import json
 import os
+import random
 import subprocess
 
 from . import common, histcheck, repo
@@ -32,6 +37,7 @@ MESSAGES = [
     ("ISO-8859-1", "caf\xe9 latin1 subject\n\nbody \xe9\xe8\n".encode("latin-1")),
     ("ISO-8859-1", b"valid utf8 bytes declared latin1: \xc3\xa9\n"),
     ("windows-1252", "smart \x93quotes\x94\n".encode("latin-1")),
+    ("ISO-8859-1", b"c1 range \x93quoted\x94 text\n"),        # bytes 0x80-0x9f under a latin-1 label: F40
     (None, b"subject only"),
     (None, "trailing blank lines\n\nbody\n\n\n".encode()),
 ]
@@ -64,6 +70,9 @@ def describe(r, oid):
     return p.stdout
 
 
+KNOWN_SEEN = set()
+
+
 def end_to_end(ctx, stg):
     failures = []
     n = 0
@@ -72,12 +81,15 @@ def end_to_end(ctx, stg):
         # a chain of commits with the tricky identities / encodings, each touching its own file
         parent = r.rev("HEAD")
         k = 0
+        c1_commits = set()
         for ident in IDENTITIES:
             for enc, msg in MESSAGES:
                 r.write("file%d.txt" % k, "content %d\n" % k)
                 r.git(["add", "-A"])
                 tree = r.git(["write-tree"]).stdout.strip()
                 parent = make_commit(r, parent, tree, ident, enc, msg)
+                if enc == "ISO-8859-1" and any(0x80 <= b <= 0x9f for b in msg):
+                    c1_commits.add(parent)
                 k += 1
                 if k >= (8 if ctx.quick() else 28):
                     break
@@ -90,8 +102,11 @@ def end_to_end(ctx, stg):
             return 0, [{"why": "uncommit failed", "stderr": p.stderr[-300:]}]
         names = r.stg(stg, ["series", "--noprefix", "-a"]).stdout.split()
         want = {}
+        c1_names = set()
         for nme in names:
             oid = r.rev("refs/patches/main/" + nme)
+            if oid in c1_commits:
+                c1_names.add(nme)
             want[nme] = describe(r, oid)
             r.git(["notes", "add", "-m", "note for " + nme, oid])
         ops = [["pop", "-a"], ["push", "-a", "--reverse"], ["float", names[0]], ["sink", names[-1]],
@@ -115,7 +130,12 @@ def end_to_end(ctx, stg):
                     continue
                 oid = r.rev("refs/patches/main/" + nme)
                 got = describe(r, oid)
-                if got != want[base]:
+                if got != want[base] and base in c1_names and got.split(b"\0")[:3] == want[base].split(b"\0")[:3]:
+                    # known finding F40: encoding_rs resolves the label ISO-8859-1 to windows-1252
+                    # (WHATWG), so bytes 0x80-0x9f decode to other characters than git's latin-1
+                    KNOWN_SEEN.add("F40")
+                    want[base] = got
+                elif got != want[base]:
                     failures.append({"after": op, "patch": nme, "why": "authorship or message changed",
                                      "before": want[base].decode("utf-8", "replace")[:200],
                                      "after_value": got.decode("utf-8", "replace")[:200]})
@@ -232,6 +252,166 @@ def edit_fields(stg):
     return n, failures
 
 
+# ---------------------------------------------------------------- re-creation correspondence
+# Model/Encoding.v `recreate` against the real code: a patch commit written with a given
+# `encoding` header and message bytes is re-created (pushed onto a different parent) under a
+# given i18n.commitEncoding; the header and the message bytes of the new commit - and whether
+# the command refuses - must be the model's.
+
+HEADER_LABELS = {"none": [None], "utf8": ["UTF-8", "utf8", "utf-8"],
+                 "latin1": ["ISO-8859-1", "latin1", "iso8859-1", "L1", "ISO_8859-1"],
+                 "w1252": ["windows-1252", "cp1252", "CP1252"],
+                 "unknown": ["x-nonsense-encoding", "EBCDIC-XYZ"]}
+CONFIG_LABELS = {"none": None, "utf8": "UTF-8", "latin1": "ISO-8859-1", "w1252": "windows-1252"}
+CONFIG_HEADER = {"none": None, "utf8": "UTF-8", "latin1": "ISO-8859-1", "w1252": "windows-1252"}
+
+
+def gen_message(rng):
+    """mostly text; pools: ASCII words, latin-1 letters, C1-range bytes, valid UTF-8 sequences of
+    2/3/4 bytes, invalid UTF-8 fragments"""
+    kind = rng.choice(["ascii", "latin", "c1", "utf8", "utf8", "invalid", "mixed", "w1252undef"])
+    words = []
+    for _ in range(rng.randint(1, 5)):
+        w = bytes(rng.choice(b"abcdefghijklmnopqrstuvwxyz") for _ in range(rng.randint(1, 6)))
+        k = kind if kind != "mixed" else rng.choice(["ascii", "latin", "c1", "utf8", "invalid"])
+        if k == "latin":
+            w += bytes([rng.randint(0xa0, 0xff)])
+        elif k == "c1":
+            w += bytes([rng.choice([0x80, 0x82, 0x85, 0x91, 0x92, 0x93, 0x94, 0x96, 0x97, 0x99, 0x9c, 0x9f])])
+        elif k == "w1252undef":
+            w += bytes([rng.choice([0x81, 0x8d, 0x8f, 0x90, 0x9d])])
+        elif k == "utf8":
+            w += rng.choice(["\u00e9", "\u00df", "\u20ac", "\u201c", "\u0416", "\u65e5", "\U0001f63c", "\u0081", "\u0093"]).encode()
+        elif k == "invalid":
+            w += rng.choice([b"\xc3", b"\xe2\x82", b"\xff", b"\xc0\xaf", b"\xed\xa0\x80", b"\xf5\x80\x80\x80"])
+        words.append(w)
+    subject = b" ".join(words)
+    body = b""
+    if rng.random() < 0.5:
+        body = b"\n\n" + b" ".join(reversed(words)) + b"\n"
+    elif rng.random() < 0.5:
+        body = b"\n"
+    return subject + body
+
+
+def raw_commit(r, oid):
+    p = subprocess.run(["git", "cat-file", "commit", oid], cwd=r.path, capture_output=True, env=r.env())
+    head, _, msg = p.stdout.partition(b"\n\n")
+    enc = None
+    for ln in head.split(b"\n"):
+        if ln.startswith(b"encoding "):
+            enc = ln[9:].decode("latin-1")
+    return enc, msg
+
+
+def shown_text(r, oid):
+    p = subprocess.run(["git", "log", "-1", "--encoding=UTF-8", "--format=%B", oid], cwd=r.path,
+                       capture_output=True, env=r.env())
+    return p.stdout
+
+
+def recreate_correspondence(ctx, stg, exe, seed, nbatches, per_batch):
+    from . import funcorr
+    rng = random.Random(seed)
+    failures = []
+    stats = {"cases": 0, "refused": 0, "by_header": {}, "by_config": {}, "text_compared": 0, "text_changed_f40": 0,
+             "bytes_changed": 0}
+    for bi in range(nbatches):
+        cfg = list(CONFIG_LABELS)[bi % 4]
+        cases = []
+        with repo.Scratch("c08r") as r:
+            r.init_repo()
+            parent = r.rev("HEAD")
+            for k in range(per_batch):
+                hk = rng.choice(["none", "none", "utf8", "latin1", "latin1", "w1252", "w1252", "unknown"])
+                label = rng.choice(HEADER_LABELS[hk])
+                msg = gen_message(rng)
+                r.write("r%d.txt" % k, "content %d\n" % k)
+                r.git(["add", "-A"])
+                tree = r.git(["write-tree"]).stdout.strip()
+                parent = make_commit(r, parent, tree, IDENTITIES[0], label, msg)
+                cases.append({"header": hk, "label": label, "bytes": msg.hex(), "config": cfg, "commit": parent})
+            r.git(["reset", "-q", "--hard", parent])
+            r.stg(stg, ["init"])
+            p = r.stg(stg, ["uncommit", "-n", str(per_batch), "r"])
+            if p.returncode != 0:
+                failures.append({"why": "uncommit failed", "stderr": p.stderr[-300:], "batch": bi})
+                continue
+            names = r.stg(stg, ["series", "--noprefix", "-a"]).stdout.split()
+            for nme, c in zip(names, cases):
+                c["name"] = nme
+                c["shown_before"] = shown_text(r, c["commit"])
+            p = r.stg(stg, ["pop", "-a"])
+            if CONFIG_LABELS[cfg] is not None:
+                r.git(["config", "i18n.commitEncoding", CONFIG_LABELS[cfg]])
+            reqs = [["recreate", c["header"], c["bytes"] or "-", c["config"]] for c in cases]
+            model = funcorr.run_model(exe, "/dev/null", reqs)
+            # push in reverse order: every patch lands on a parent it did not have
+            for c, m in reversed(list(zip(cases, model))):
+                stats["cases"] += 1
+                stats["by_header"][c["header"]] = stats["by_header"].get(c["header"], 0) + 1
+                stats["by_config"][cfg] = stats["by_config"].get(cfg, 0) + 1
+                p = r.stg(stg, ["push", c["name"]])
+                desc = {k: c[k] for k in ("header", "label", "bytes", "config")}
+                if m == "err":
+                    stats["refused"] += 1
+                    if p.returncode == 0:
+                        failures.append({**desc, "why": "the model refuses the re-creation, stg push succeeded"})
+                    elif "encod" not in p.stderr and "decode" not in p.stderr:
+                        failures.append({**desc, "why": "push failed for another reason", "stderr": p.stderr[-200:]})
+                    continue
+                if p.returncode != 0:
+                    failures.append({**desc, "why": "stg push failed, the model re-creates the commit: " + m,
+                                     "stderr": p.stderr[-200:]})
+                    continue
+                oid = r.rev("refs/patches/main/" + c["name"])
+                if oid == c["commit"]:
+                    failures.append({**desc, "why": "the patch commit was not re-created (harness)"})
+                    continue
+                enc, out = raw_commit(r, oid)
+                _ok, mh, mout, mtxt = m.split(" ")
+                mout_b = b"" if mout in ("e", "-") else bytes.fromhex(mout)
+                want_label = CONFIG_HEADER[mh] if mh in CONFIG_HEADER else "?"
+                # an absent header and a UTF-8 header mean the same to every reader
+                norm = lambda l: None if l is None or l.lower() in ("utf-8", "utf8") else l.lower()
+                if out != mout_b or norm(enc) != norm(want_label):
+                    failures.append({**desc, "why": "re-created commit differs from the model",
+                                     "real": {"encoding": enc, "message": out.hex()},
+                                     "model": {"encoding": want_label, "message": mout}})
+                    continue
+                if out != bytes.fromhex(c["bytes"]):
+                    stats["bytes_changed"] += 1
+                # the shown text: git's decoding of the new commit against the model's git_text, and
+                # against the text shown before (the fidelity clause itself)
+                after = shown_text(r, oid)
+                if mtxt != "_":
+                    stats["text_compared"] += 1
+                    mt = "".join(chr(int(x)) for x in mtxt.split(",")) if mtxt else ""
+                    if after.decode("utf-8", "surrogateescape").rstrip("\n") != mt.rstrip("\n"):
+                        failures.append({**desc, "why": "git shows another text than the model's git_text",
+                                         "shown": after.hex(), "model": mtxt})
+                        continue
+                if after != c["shown_before"]:
+                    c1 = any(0x80 <= b <= 0x9f for b in bytes.fromhex(c["bytes"]))
+                    single = c["header"] in ("latin1", "w1252")
+                    undefined = any(b in (0x81, 0x8d, 0x8f, 0x90, 0x9d) for b in bytes.fromhex(c["bytes"]))
+                    cross = single and cfg in ("latin1", "w1252") and cfg != c["header"]
+                    if c["header"] == "latin1" and c1 and cfg in ("none", "utf8"):
+                        stats["text_changed_f40"] += 1
+                        KNOWN_SEEN.add("F40")
+                    elif c["header"] == "w1252" and undefined:
+                        pass        # git could not decode the message before (iconv CP1252 has no such byte)
+                    elif c["header"] == "unknown" or (c["header"] in ("none", "utf8") and cfg in ("latin1", "w1252")):
+                        pass        # undecodable label before / the user asked for another commit encoding:
+                                    # compare the decoded text below
+                    elif cross and c1:
+                        pass        # i18n.commitEncoding names the other single-byte table: the label changes
+                    else:
+                        failures.append({**desc, "why": "the message git shows changed by the re-creation",
+                                         "before": c["shown_before"].hex(), "after": after.hex()})
+    return stats, failures
+
+
 def run(ctx):
     histcheck.run_property(ctx, PROFILES, ORACLES, n_quick=32, n_thorough=500, nsteps=32 if ctx.quick() else 45,
                            own_oracle="c08")
@@ -242,13 +422,41 @@ def run(ctx):
     n3, f3 = edit_fields(stg)
     n += n2 + n3
     failures += f2 + f3
+    # the re-creation model (Model/Encoding.v) against the real code
+    from . import p_c18
+    common.coq_make(["ExtractExport.vo"])
+    exe = p_c18.build_edriver()
+    nb, per = (4, 12) if ctx.quick() else (48, 20)
+    rstats, rfail = recreate_correspondence(ctx, stg, exe, ctx.seed, nb, per)
+    ctx.coverage["recreate_correspondence"] = rstats
+    ctx.coverage["evaluations"] = ctx.coverage.get("evaluations", 0) + rstats["cases"]
+    for f in rfail[:3]:
+        common.violation(ctx, {"obligation": "correspondence:C08:recreate", "seed": ctx.seed, "batches": nb,
+                               "per_batch": per, **f}, found_input=True,
+                         hint="recreate-")
     ctx.coverage["end_to_end_operations"] = n
     ctx.coverage["evaluations"] = ctx.coverage.get("evaluations", 0) + n
     for f in failures[:3]:
         common.violation(ctx, {"obligation": "direct-oracle:C08:end-to-end", **f}, found_input=True, hint="e2e-")
-    ctx.assumptions.append("encoding_rs tables, git's i18n.commitEncoding re-encoding and gpg signing are outside the "
-                           "model (partial); decoded values are obtained with git log --encoding=UTF-8")
+    for kid in sorted(KNOWN_SEEN):
+        if kid in known and not any(x.startswith(kid + ":") for x in ctx.known):
+            ctx.known.append("%s: %s" % (kid, known[kid]["what"]))
+    ctx.assumptions.append("Model/Encoding.v covers utf-8 / latin-1 / windows-1252 labels and i18n.commitEncoding "
+                           "unset / UTF-8 / ISO-8859-1 / windows-1252; other encoding_rs tables and gpg signing are "
+                           "outside the model (partial); git's decoding is obtained with git log --encoding=UTF-8 "
+                           "(glibc iconv)")
+    ctx.trusted_base += ["extraction of Model/Encoding.v: ExtrOcamlBasic only -> ocaml/emodel.ml, driver ocaml/edriver.ml"]
 
 
 def replay(ctx, path):
+    doc = json.load(open(path))
+    if doc.get("obligation") == "correspondence:C08:recreate":
+        from . import p_c18
+        stg = common.build_stg()
+        common.coq_make(["ExtractExport.vo"])
+        exe = p_c18.build_edriver()
+        _st, fails = recreate_correspondence(ctx, stg, exe, doc["seed"], doc.get("batches", 4), doc.get("per_batch", 12))
+        same = [f for f in fails if f.get("bytes") == doc.get("bytes") and f.get("label") == doc.get("label")]
+        print(json.dumps(same or fails[:3], indent=1)[:3000])
+        return 1 if fails else 0
     return histcheck.replay_scenario(ctx, path, ORACLES)
